@@ -23,6 +23,9 @@ for d in sorted(glob.glob(os.path.join(V, "seeded", "*"))):
         prev[name] = {"property": pid, "result": "no check yet"}
         continue
     meta = json.load(open(os.path.join(d, "meta.json")))
+    if meta.get("obsolete"):
+        prev[name] = {"property": pid, "result": "OBSOLETE on the current tree", "violations": [meta["obsolete"][:300]], "summary": meta.get("summary", "")[:220]}
+        continue
     rc = subprocess.run(["git", "-C", REPO, "apply", os.path.join(d, "patch.diff")], stderr=subprocess.DEVNULL).returncode
     if rc != 0:   # hooks inserted next to a hunk after the seed was written: retry with reduced context
         rc = subprocess.run(["git", "-C", REPO, "apply", "-C1", os.path.join(d, "patch.diff")], stderr=subprocess.DEVNULL).returncode
